@@ -94,6 +94,7 @@ type objInfo struct {
 	reads []uint32
 	ref   interface{}
 	name  string
+	seq   int
 }
 
 // Blocked describes a thread that was not finished when the execution ended.
@@ -305,6 +306,9 @@ func Wait(desc string, obj unsafe.Pointer, cond func() bool) {
 		return
 	}
 	t.kind, t.desc, t.obj, t.cond, t.cases = opWait, desc, obj, cond, nil
+	if obj != nil {
+		s.obj(obj)
+	}
 	t.park()
 }
 
@@ -317,6 +321,9 @@ func Point(desc string, obj unsafe.Pointer) {
 		return
 	}
 	t.kind, t.desc, t.obj, t.cond, t.cases = opYield, desc, obj, nil, nil
+	if obj != nil {
+		s.obj(obj)
+	}
 	t.park()
 }
 
@@ -515,10 +522,14 @@ func (s *Sched) objName(p unsafe.Pointer) string {
 	if p == nil {
 		return "nil"
 	}
-	if o := s.objs[p]; o != nil && o.name != "" {
+	o := s.objs[p]
+	if o == nil {
+		return "obj?"
+	}
+	if o.name != "" {
 		return o.name
 	}
-	return fmt.Sprintf("%p", p)
+	return fmt.Sprintf("obj#%d", o.seq)
 }
 
 // NameObject attaches a stable diagnostic name to an object.
@@ -616,7 +627,7 @@ func (s *Sched) fireTimer() bool {
 func (s *Sched) obj(p unsafe.Pointer) *objInfo {
 	o := s.objs[p]
 	if o == nil {
-		o = &objInfo{wT: -1}
+		o = &objInfo{wT: -1, seq: len(s.objs) + 1}
 		s.objs[p] = o
 	}
 	return o
